@@ -476,14 +476,15 @@ def check(pid, tier, seed, update_baseline=False):
                     res.undecided.append("fast-math part: " + str(e))
             if cfg.get("kani"):
                 ov = False
+                # cheap bounded native searches first: a function they already refute needs no expensive fallback harness
                 try:
-                    ov = kani.run_harnesses(res, cfg, sc, tier)
-                except (ToolError, gen.GenError) as e:
-                    res.undecided.append("kani part: " + str(e))
-                try:
-                    kani.run_searches(res, cfg, sc, tier, ov)
+                    ov = kani.run_searches(res, cfg, sc, tier, ov)
                 except (ToolError, gen.GenError) as e:
                     res.undecided.append("native search part: " + str(e))
+                try:
+                    kani.run_harnesses(res, cfg, sc, tier, overlay_done=ov)
+                except (ToolError, gen.GenError) as e:
+                    res.undecided.append("kani part: " + str(e))
             for extra in cfg.get("scans", []):
                 import scans
                 scans.run(extra, res, sc)
